@@ -1234,7 +1234,7 @@ func (r *JobRun) runFixOp(op *Op, i int) *Violation {
 				cls = "dependent-main-entity-not-emitted"
 			} else if strings.HasPrefix(want[y], "was connected") {
 				cls = "previously-linked-main-entity-not-emitted"
-				// KF-C18-1: the look back in time uses the stamp of the change preceding the current page; when a
+				// (label of the former finding KF-C18-1, repaired) the look back in time used the stamp of the change preceding the current page; when a
 				// page of changes can start inside the commit that removed the link (the commit wrote other
 				// changes before it and the dependency has more pending changes than one page holds), that change
 				// belongs to the same commit, so the link is already gone at that instant
